@@ -106,6 +106,25 @@ def run(ctx):
         R.oracle(key, not problems, dict(input=key, variant=variant, history=hist, version=v, border=b,
                                          expected="reads back to the framed module matrix", observed="; ".join(problems)),
                  tag="P3:" + variant + ":" + hist, sample=dict(variant=variant, history=hist, version=v, border=b))
+    # P2: the tty check itself (Model.printAsciiOut / printTtyOut on a 1x1 symbol) for every flag combination
+    for tty in (0, 1):
+        for inv in (0, 1):
+            for isatty in (0, 1):
+                q = qrcode.QRCode(version=1, border=0); q.modules = [[True]]; q.modules_count = 1; q.data_cache = [0]
+                out = Stream(bool(isatty))
+                try:
+                    q.print_ascii(out=out, tty=bool(tty), invert=bool(inv)); e = "ok " + hx(out.text)
+                except Exception as ex:  # noqa
+                    e = "err " + err_name(ex) + ("" if out.text == "" else " after-writing")
+                R.corr("asciiout", f"asciiout {tty} {inv} {isatty}", e, ask([f"asciiout {tty} {inv} {isatty}"])[0], tag="P2:tty-check")
+    for isatty in (0, 1):
+        q = qrcode.QRCode(version=1, border=0); q.modules = [[True]]; q.modules_count = 1; q.data_cache = [0]
+        out = Stream(bool(isatty))
+        try:
+            q.print_tty(out=out); e = "ok " + hx(out.text)
+        except Exception as ex:  # noqa
+            e = "err " + err_name(ex) + ("" if out.text == "" else " after-writing")
+        R.corr("ttyout", f"ttyout {isatty}", e, ask([f"ttyout {isatty}"])[0], tag="P2:tty-check")
     # refusal on non-tty streams
     for variant in ("tty", "tty+invert", "print_tty"):
         for hist in ("fresh", "made"):
